@@ -144,6 +144,15 @@ func histSectSweep(ck *dqCk, n int) (probes, accessors int) { // accessors: comp
 		}
 		in := fmt.Sprintf("%04d-%02d-%02d %02d:%02d:%02d", y, m, d, t.h, t.mi, t.s)
 		ck.chk("accessor-depends-on-eightchar-school", in, func() (bool, string, string) {
+			// two conversions of ONE civil date object are independent: a setter call on the first result is invisible in the second
+			so := sol(y, m, d, t.h, t.mi, t.s)
+			first := so.GetLunar()
+			ref := first.GetEightChar().GetDay()
+			first.GetEightChar().SetSect(1)
+			second := so.GetLunar().GetEightChar()
+			if second.GetSect() != 2 || second.GetDay() != ref {
+				return false, fmt.Sprintf("second GetLunar() of the same Solar: school %d, day pillar %s", second.GetSect(), second.GetDay()), fmt.Sprintf("school 2, day pillar %s (SetSect(1) was called on the FIRST result only)", ref)
+			}
 			l := sol(y, m, d, t.h, t.mi, t.s).GetLunar()
 			ok, obs, exp, k := histSectProbe(l)
 			probes++
